@@ -325,9 +325,9 @@ func runPhase(a OrchArgs, info *props.Info, seed uint64, budget time.Duration, a
 		}
 		switch {
 		case w.killed:
-			crashes = append(crashes, crashCase{seed: seed, run: w.inflight, race: w.race, hang: true, text: tail(w.stderr.String(), 6000)})
+			crashes = append(crashes, crashCase{seed: seed, run: w.inflight, race: w.race, hang: true, text: headTail(w.stderr.String(), 3000)})
 		case w.exit != 0 && w.exit != 1 && len(w.harness) == 0:
-			crashes = append(crashes, crashCase{seed: seed, run: w.inflight, race: w.race, exit: w.exit, text: tail(w.stderr.String(), 6000)})
+			crashes = append(crashes, crashCase{seed: seed, run: w.inflight, race: w.race, exit: w.exit, text: headTail(w.stderr.String(), 3000)})
 		case w.exit == 2 && len(w.harness) > 0:
 			// already recorded as trouble
 		}
@@ -340,6 +340,15 @@ func tail(s string, n int) string {
 		return s[len(s)-n:]
 	}
 	return s
+}
+
+// headTail keeps the beginning (where Go prints "fatal error: ...", the race report or the
+// panic message) and the end of a long output.
+func headTail(s string, n int) string {
+	if len(s) <= 2*n {
+		return s
+	}
+	return s[:n] + "\n[... " + fmt.Sprint(len(s)-2*n) + " bytes omitted ...]\n" + s[len(s)-n:]
 }
 
 // confirmReplay replays a file in a fresh process; true when the violation reproduces.
@@ -372,7 +381,7 @@ func runOne(a OrchArgs, race bool, args []string, limit time.Duration) (exit int
 	go func() { done <- cmd.Wait() }()
 	select {
 	case err := <-done:
-		return exitCodeOf(err), false, tail(buf.String(), 8000)
+		return exitCodeOf(err), false, headTail(buf.String(), 5000)
 	case <-time.After(limit):
 		cmd.Process.Signal(syscall.SIGQUIT)
 		select {
@@ -381,7 +390,7 @@ func runOne(a OrchArgs, race bool, args []string, limit time.Duration) (exit int
 			cmd.Process.Kill()
 			<-done
 		}
-		return -1, true, tail(buf.String(), 8000)
+		return -1, true, headTail(buf.String(), 5000)
 	}
 }
 
@@ -423,6 +432,11 @@ func handleCrash(a OrchArgs, info *props.Info, cr crashCase) (violationLine, tro
 	limit := 2 * a.HangLimit
 	exit, hung, out := runOne(a, cr.race, []string{"one", "-prop", a.Prop, "-tier", a.Tier, "-seed", fmt.Sprint(cr.seed), "-run", fmt.Sprint(cr.run), "-tapeout", tapeFile}, limit)
 	same := (cr.hang && hung) || (!cr.hang && !hung && exit == cr.exit)
+	if cr.hang && !hung && exit != 0 && exit != 1 {
+		// the worker was declared hung while the run was on its way to an unrecoverable runtime
+		// error (e.g. unbounded recursion growing stack and heap): alone it reaches that error
+		cr.hang, cr.exit, same = false, exit, true
+	}
 	if !same {
 		return "", fmt.Sprintf("run %d (seed %d) ended abnormally in a worker (exit %d, hang=%v) but not when re-run alone (exit %d, hang=%v); worker stderr:\n%s", cr.run, cr.seed, cr.exit, cr.hang, exit, hung, cr.text)
 	}
